@@ -67,6 +67,11 @@ def contingency_case(draw, profile=None):
     for k, b in enumerate(recipe["buses"]):
         if k not in slack_buses and draw(st.sampled_from(_P_OOS_BUS)):
             b["in_service"] = False
+    # identical double circuits: two N-1 cases with bit-identical consequences (exact ties in the running maxima)
+    lines = [e for e in recipe["el"] if e["t"] == "line" and e.get("in_service", True)]
+    if lines and draw(st.sampled_from([False, False, True])):
+        for _ in range(draw(st.sampled_from([1, 1, 2]))):
+            recipe["el"].append(copy.deepcopy(draw(st.sampled_from(lines))))
     n = {t: _count(recipe, t) for t in BRANCH}
     types = [t for t in BRANCH if n[t] > 0]
     limits = {t: draw(st.lists(st.sampled_from(LIMITS), min_size=n[t], max_size=n[t])) for t in types}
